@@ -55,14 +55,19 @@ inductive Op where
   | copy (s d : Nat)
   /-- one `(i0,i)` iteration of `Many2ManyLink::Distr<VCString>` (`SetVal(i, val)`) -/
   | distr (s d : Nat)
-  /-- `RangeCon2Slack::PresolveNamesEntry` with `{CON_SRC, CON_TARGET, VAR_SLK}` -/
-  | slack (s con slk : Nat)
+  /-- one `SetStr(be, pos, GetStr(be, CON_SRC) + "_slk_"/"_equ_")` of `RangeCon2Slack::PresolveNamesEntry` -/
+  | sgive (s : Nat) (equ : Bool) (d : Nat)
 deriving Repr, DecidableEq
 
 def Op.src : Op → Nat
   | .copy s _ => s
   | .distr s _ => s
-  | .slack s _ _ => s
+  | .sgive s _ _ => s
+
+def Op.dst : Op → Nat
+  | .copy _ d => d
+  | .distr _ d => d
+  | .sgive _ _ d => d
 
 def slkSuffix : Name := ['_', 's', 'l', 'k', '_']
 def equSuffix : Name := ['_', 'e', 'q', 'u', '_']
@@ -71,28 +76,8 @@ def equSuffix : Name := ['_', 'e', 'q', 'u', '_']
 def St.giveIfEmpty (st : St) (d : Nat) (nm : Name) : St :=
   if (st.get d).s = [] then st.set d { st.get d with s := nm } else st
 
-/-- effect of one operation on the cells -/
-def stepSt (st : St) : Op → St
-  | .copy s d =>
-    -- operator=: only if the target is empty the source is counted
-    if (st.get d).s = [] then
-      let c := (st.get s).counted
-      let st1 := st.set s c.2
-      st1.set d { st1.get d with s := c.1 }
-    else st
-  | .distr s d =>
-    -- SetVal(i, VCString v): the by-value parameter is a counted copy, always
-    let c := (st.get s).counted
-    let st1 := st.set s c.2
-    st1.giveIfEmpty d c.1
-  | .slack s con slk =>
-    -- operator+ builds a fresh VCString, the source counter is untouched
-    let st1 := st.giveIfEmpty slk ((st.get s).s ++ slkSuffix)
-    st1.giveIfEmpty con ((st1.get s).s ++ equSuffix)
-
-def run (st : St) : List Op → St
-  | [] => st
-  | o :: os => run (stepSt st o) os
+/-- post-increment of the copy counter of cell `s` (`n_++` inside `MakeCountedName`) -/
+def St.bump (st : St) (s : Nat) : St := st.set s (st.get s).counted.2
 
 /-! ### ghost structure: which cell was named from which -/
 
@@ -113,33 +98,49 @@ def Lab.tok : Lab → Name
 /-- label of the counted copy taken when the source counter is `j` -/
 def cntLab (j : Nat) : Lab := if j = 0 then .plain else .num (j + 1)
 
+def slackLab (equ : Bool) : Lab := if equ then .equ else .slk
+
+/-- effect of one operation on the cells -/
+def stepSt (st : St) : Op → St
+  | .copy s d =>
+    -- operator=: only if the target is empty the source is counted (`s_ = vcs.MakeCountedName()`)
+    if (st.get d).s = [] then (st.giveIfEmpty d (st.get s).counted.1).bump s else st
+  | .distr s d =>
+    -- SetVal(i, VCString v): the by-value parameter is a counted copy of the source, always;
+    -- the copy is then stored only into an empty target
+    (st.giveIfEmpty d (st.get s).counted.1).bump s
+  | .sgive s equ d =>
+    -- operator+ builds a fresh VCString, the source counter is untouched
+    st.giveIfEmpty d ((st.get s).s ++ (slackLab equ).tok)
+
+def run (st : St) : List Op → St
+  | [] => st
+  | o :: os => run (stepSt st o) os
+
 structure Edge where
   p : Nat
   l : Lab
   c : Nat
 deriving Repr, DecidableEq
 
-/-- naming edges created by one operation in state `st` (only actual stores are recorded) -/
-def stepE (st : St) : Op → List Edge
-  | .copy s d =>
-    if (st.get d).s = [] then [⟨s, cntLab (st.get s).n, d⟩] else []
-  | .distr s d =>
-    let st1 := st.set s (st.get s).counted.2
-    if (st1.get d).s = [] then [⟨s, cntLab (st.get s).n, d⟩] else []
-  | .slack s con slk =>
-    let e1 : List Edge := if (st.get slk).s = [] then [⟨s, .slk, slk⟩] else []
-    let st1 := st.giveIfEmpty slk ((st.get s).s ++ slkSuffix)
-    let e2 : List Edge := if (st1.get con).s = [] then [⟨s, .equ, con⟩] else []
-    e1 ++ e2
+/-- label an operation would use in state `st` -/
+def Op.lab (st : St) : Op → Lab
+  | .copy s _ => cntLab (st.get s).n
+  | .distr s _ => cntLab (st.get s).n
+  | .sgive _ equ _ => slackLab equ
+
+/-- naming edge created by one operation in state `st` (only actual stores are recorded) -/
+def stepE (st : St) (o : Op) : List Edge :=
+  if (st.get o.dst).s = [] then [⟨o.src, o.lab st, o.dst⟩] else []
 
 def edges (st : St) : List Op → List Edge
   | [] => []
   | o :: os => stepE st o ++ edges (stepSt st o) os
 
-/-- every operation finds a non-empty source name when it is executed -/
+/-- every operation that stores a name finds a non-empty source name when it is executed -/
 def wellFed (st : St) : List Op → Bool
   | [] => true
-  | o :: os => decide ((st.get o.src).s ≠ []) && wellFed (stepSt st o) os
+  | o :: os => (decide ((st.get o.dst).s ≠ []) || decide ((st.get o.src).s ≠ [])) && wellFed (stepSt st o) os
 
 /-! ### link entries as exported by `cvt:writegraph` -> elementary operations -/
 
@@ -150,6 +151,9 @@ def expandCopy (s0 d0 len : Nat) : List Op :=
 /-- `Many2ManyLink::Distr`: for every source index, for every target index -/
 def expandDistr (s0 slen d0 dlen : Nat) : List Op :=
   (List.range slen).flatMap fun i0 => (List.range dlen).map fun i => Op.distr (s0 + i0) (d0 + i)
+
+/-- `RangeCon2Slack::PresolveNamesEntry` for `{CON_SRC, CON_TARGET, VAR_SLK}`: slack first, then the equality -/
+def expandSlack (s con slk : Nat) : List Op := [Op.sgive s false slk, Op.sgive s true con]
 
 /-! ### reading the results (FlatConverter::PresolveNames) -/
 
@@ -166,14 +170,57 @@ for `_slk_`/`_equ_` it says a range constraint is converted once) -/
 def sibDistinctB (E : List Edge) : Bool :=
   E.all fun e => E.all fun e' => !(e.p == e'.p && e.l == e'.l) || e == e'
 
-/-- if a cell has a plain child and another (non-plain) child, the plain child has no children -/
-def plainSafeB (E : List Edge) : Bool :=
-  E.all fun e1 => E.all fun e2 => E.all fun e3 =>
-    !(e1.p == e2.p && e1.l == Lab.plain && e2.l != Lab.plain && e3.p == e1.c)
+/-- plain edges as (ancestor, descendant) pairs -/
+def plainPairs (E : List Edge) : List (Nat × Nat) :=
+  E.filterMap fun e => if e.l = Lab.plain then some (e.p, e.c) else none
 
-/-- `c` was never the source of a counted copy nor of a slack entry that stored a name -/
-def leafB (st : St) (E : List Edge) (c : Nat) : Bool :=
-  (st.get c).n == 0 && E.all fun e => e.p != c
+/-- one round of right-extension of `R` by plain edges -/
+def extendPairs (E : List Edge) (R : List (Nat × Nat)) : List (Nat × Nat) :=
+  R ++ (R.flatMap fun ab => E.filterMap fun e =>
+    if e.p = ab.2 ∧ e.l = Lab.plain ∧ ¬ R.contains (ab.1, e.c) then some (ab.1, e.c) else none).eraseDups
+
+/-- pairs `(a, b)` such that `b` is reached from `a` by a non-empty chain of plain edges (iterated to a fixpoint) -/
+def plainClosure : Nat → List Edge → List (Nat × Nat) → List (Nat × Nat)
+  | 0, _, R => R
+  | fuel + 1, E, R =>
+    let R' := extendPairs E R
+    if R'.length = R.length then R else plainClosure fuel E R'
+
+/-- `R` contains every plain edge and is closed under right-extension by plain edges -/
+def closedB (E : List Edge) (R : List (Nat × Nat)) : Bool :=
+  E.all fun e => e.l != Lab.plain ||
+    (R.contains (e.p, e.c) && R.all fun ab => ab.2 != e.p || R.contains (ab.1, e.c))
+
+/-- two edges with the same non-plain label never leave cells related by a plain chain -/
+def noClashB (E : List Edge) (R : List (Nat × Nat)) : Bool :=
+  E.all fun e1 => E.all fun e2 => !(e1.l == e2.l && e1.l != Lab.plain && R.contains (e1.p, e2.p))
+
+/-- no delivered cell is a plain-chain descendant of another delivered cell -/
+def belowFreeB (R : List (Nat × Nat)) (D : List Nat) : Bool :=
+  D.all fun u => D.all fun v => !R.contains (u, v)
+
+/-- the delivered cells that are read through `MakeCountedName` (variables, objectives) were never counted -/
+def uncountedB (st : St) (D : List Nat) : Bool := D.all fun c => (st.get c).n == 0
+
+/-- scanner states for suffix chains: `_w_ _w_ …`, `w` non-empty without underscore -/
+inductive CS where
+  | start | opened | body
+deriving DecidableEq, Repr
+
+def CS.step : CS → Char → Option CS
+  | .start, c => if c = '_' then some .opened else none
+  | .opened, c => if c = '_' then none else some .body
+  | .body, c => if c = '_' then some .start else some .body
+
+def runCS : CS → Name → Option CS
+  | q, [] => some q
+  | q, c :: cs => match q.step c with
+    | some q' => runCS q' cs
+    | none => none
+
+/-- `t` is a (possibly empty) concatenation of tokens `_w_`: a superset of every suffix chain
+(`_k_`, `_slk_`, `_equ_`) the name presolve can append -/
+def isChainB (t : Name) : Bool := runCS .start t == some .start
 
 /-- `q` begins with `p` -/
 def isPrefixB : Name → Name → Bool
@@ -181,32 +228,14 @@ def isPrefixB : Name → Name → Bool
   | _ :: _, [] => false
   | a :: p, b :: q => a == b && isPrefixB p q
 
-/-- body of a token up to the closing underscore: returns the rest after `_` if the body is non-empty -/
-def tokenBody : Name → Bool → Option Name
-  | [], _ => none
-  | c :: cs, seen => if c = '_' then (if seen then some cs else none) else tokenBody cs true
-
-/-- `t` is a concatenation of tokens `_w_`, `w` non-empty without underscore (a superset of all
-suffix chains `_k_`, `_slk_`, `_equ_` the name presolve can append) -/
-def isChainB (fuel : Nat) (t : Name) : Bool :=
-  match fuel, t with
-  | _, [] => true
-  | 0, _ => false
-  | fuel + 1, c :: cs =>
-    if c = '_' then
-      match tokenBody cs false with
-      | some rest => isChainB fuel rest
-      | none => false
-    else false
+/-- `a` is `b` followed by a suffix chain -/
+def extendsB (a b : Name) : Bool := isPrefixB b a && isChainB (a.drop b.length)
 
 /-- no source name equals another source name followed by a (possibly empty) suffix chain;
 in particular the source names are pairwise different -/
 def suffixFreeB (names : List Name) : Bool :=
   let idx := List.range names.length
-  idx.all fun i => idx.all fun j =>
-    i == j ||
-      !(isPrefixB (names.getD j []) (names.getD i []) &&
-        isChainB ((names.getD i []).length + 1) ((names.getD i []).drop (names.getD j []).length))
+  idx.all fun i => idx.all fun j => i == j || !extendsB (names.getD i []) (names.getD j [])
 
 def nodupB (l : List Name) : Bool :=
   match l with
